@@ -35,6 +35,41 @@ class Box(collections.namedtuple("BoxBase", ["u", "v"])):
     def g(self, a, b=0):
         return self.v + 10 * a + 100 * b
 
+    def h(self, *ds):
+        return _vdig(self.u, *ds)
+
+    @distributionMethod
+    def k(self, *ds):
+        return _vdig(self.v, *ds)
+
+
+def _vdig(*ds):
+    """Horner digits: order-sensitive in every argument position."""
+    total = 0
+    for d in ds:
+        total = 10 * total + d
+    return total
+
+
+def _vcat(a, b):
+    return a + b
+
+
+def _vkind(s):
+    if type(s) is list:
+        return 2
+    if type(s) is tuple:
+        return 1
+    if isinstance(s, Box):
+        return 3
+    if isinstance(s, (int, float)):
+        return 0
+    raise TypeError(f"unexpected container type {type(s).__name__}")
+
+
+def _vcount(s, x):
+    return s.count(x)
+
 
 def _vsum(a, b=0, c=0):
     return a + 10 * b + 100 * c
@@ -76,9 +111,13 @@ vne = distributionFunction(_vne)
 vgt = distributionFunction(_vgt)
 vge = distributionFunction(_vge)
 vite = distributionFunction(_vite)
+vdig = distributionFunction(_vdig)
+vcat = distributionFunction(_vcat)
+vkind = distributionFunction(_vkind)
+vcount = distributionFunction(_vcount)
 
 PRELUDE = (
-    "from gen_expr import Box, vsum, vlt, vle, veq, vne, vgt, vge, vite\n"
+    "from gen_expr import Box, vsum, vlt, vle, veq, vne, vgt, vge, vite, vdig, vcat, vkind, vcount\n"
     "from scenic.core.vectors import VectorField\n"
     'F = VectorField("F", lambda pos: pos.x)\n'
 )
@@ -98,8 +137,12 @@ FN = {
     12: ("int", [], int),
     13: ("round", ["number", "ndigits"], round),
     14: ("float", [], float),
+    15: ("vdig", [], _vdig),
+    16: ("vcat", ["a", "b"], _vcat),
+    17: ("vkind", ["s"], _vkind),
+    18: ("vcount", ["s", "x"], _vcount),
 }
-METH = {1: ("f", ["a", "b"]), 2: ("g", ["a", "b"])}
+METH = {1: ("f", ["a", "b"]), 2: ("g", ["a", "b"]), 3: ("h", []), 4: ("k", [])}
 BINSYM = {"add": "+", "sub": "-", "mul": "*", "truediv": "/", "floordiv": "//", "mod": "%", "pow": "**"}
 PRIMS = ("drange", "uniform", "discrete", "range", "unistar")
 PROPS = ["px", "pa", "pb", "pc", "pd"]  # property 1 is the x coordinate of the position
@@ -218,6 +261,8 @@ def node_text(case, n, ref):
             else:
                 parts.append(f"{params[fl - 1]}={x}")
         return f"{head}({', '.join(parts)})"
+    if k == "vmulx":
+        return f"(Vector({r[0]}, 2, 0) * {r[1]}).x"
     if k == "prop":
         return f"self.{PROPS[c[0] - 1]}"
     if k == "rel":
@@ -371,6 +416,10 @@ def py_node(case, n, vals, choice, finals=None, prev=None):
         if cv[1] != int(cv[1]) or abs(cv[1]) > 4 or abs(cv[0]) > 64:
             raise Outside("pow")
         return cv[0] ** cv[1]
+    if k == "vmulx":
+        if not all(isinstance(x, (int, float)) for x in cv):
+            raise TypeError("vector component / scalar expected")
+        return cv[0] * cv[1]
     if k == "neg":
         return -cv[0]
     if k == "pos":
@@ -510,7 +559,19 @@ def fragment_reason(case):
                 return "literal-container-random-index"
         if k == "meth" and -1 in nd["c"][1:] and case.kind(a[0]) == "box" and case.is_random(a[0]):
             return "star-call-on-literal-with-random-fields"
+        if k == "discrete" and any(_holds_list(case, x) for x in a):
+            return "unhashable-dict-key"   # Discrete({[..]: w}): plain Python raises TypeError
     return None
+
+
+def _holds_list(case, n):
+    """A plain Python container (when the program runs) that is or contains a list: unhashable."""
+    if not plain_container(case, n):
+        return False
+    nd = case.nodes[n - 1]
+    if nd["k"] == "list" or case.ty[n - 1] == "lst":
+        return True
+    return any(x and _holds_list(case, x) for x in nd["a"])
 
 
 def plain_container(case, n):
@@ -540,8 +601,12 @@ def canon(v):
         if x != x or abs(x) > 1e9:
             return ("?", repr(v))
         return ("n", Fraction(round(x * (1 << 20)), 1 << 20))
-    if isinstance(v, tuple):
+    if isinstance(v, Box) or type(v).__name__ == "Box":
+        return ("b", tuple(canon(x) for x in v))
+    if type(v) is tuple:
         return ("t", tuple(canon(x) for x in v))
+    if isinstance(v, tuple):  # some other tuple subclass
+        return ("?", repr(v)[:80])
     if isinstance(v, list):
         return ("l", tuple(canon(x) for x in v))
     return ("?", repr(v)[:80])
@@ -551,7 +616,7 @@ def canon_spec(v):
     """Value printed by Expr.tla (["n", num, den] / ["t", [..]] / ["l", [..]])."""
     if v[0] == "n":
         return ("n", Fraction(v[1], v[2]))
-    if v[0] in ("t", "l"):
+    if v[0] in ("t", "l", "b"):
         return (v[0], tuple(canon_spec(x) for x in v[1]))
     return ("?", repr(v))
 
@@ -564,6 +629,8 @@ def show(cv):
         return "(" + ", ".join(show(x) for x in cv[1]) + ")"
     if cv[0] == "l":
         return "[" + ", ".join(show(x) for x in cv[1]) + "]"
+    if cv[0] == "b":
+        return "Box(" + ", ".join(show(x) for x in cv[1]) + ")"
     return str(cv[1])
 
 
@@ -638,6 +705,8 @@ def call(case, fid, args, flags=None):
     ty = "num"
     if fid in (4, 5, 6, 7, 8, 9, 12) or (fid == 13 and len(args) == 1):
         ty = "int"
+    elif fid == 16:
+        ty = "lst" if case.ty[args[0] - 1] == "lst" else "tup"
     elif fid in (1, 2, 3, 10) and intty(case, args) and -1 not in flags:
         ty = "int"
     return case.add("call", a=args, c=[fid] + flags, ty=ty)
@@ -873,6 +942,126 @@ def core_cases():
         c = new(f"F:attr:arith:{how}")
         b = boxes(c, how)
         binop(c, "sub", c.add("attr", a=[b], c=[1]), c.add("attr", a=[b], c=[2]))
+    # H: star-unpacking of random sequences in EVERY position among the positional arguments of
+    #    order-sensitive callees: the lifted variadic function vdig, vsum, the plain method h and
+    #    the @distributionMethod k of constant / random receivers
+    def rtup(c, kind, shape):
+        if shape == "fix":      # two options of equal length
+            return c.add("uniform", a=[tup(c, (1, 2), kind), tup(c, (3, 4), kind)], ty="tup" if kind == "tuple" else "lst")
+        if shape == "var":      # options of different lengths
+            return c.add("uniform", a=[tup(c, (1, 2), kind), tup(c, (3,), kind)], ty="tup" if kind == "tuple" else "lst")
+        if shape == "one":
+            return c.add("uniform", a=[tup(c, (8,), kind), tup(c, (9,), kind)], ty="tup" if kind == "tuple" else "lst")
+        raise ValueError(shape)
+
+    star_shapes = ["S", "Sx", "xS", "xSy", "Sxy", "xyS", "SS", "SxS", "xSSy", "xSyS", "Sk", "kS"]
+    for kind in ("tuple", "list"):
+        for sh in star_shapes:
+            def build(c, short=False):
+                args, flags = [], []
+                nstar = 0
+                for ch in sh:
+                    if ch == "S":
+                        nstar += 1
+                        args.append(rtup(c, kind, "var" if nstar == 1 and not (short and len(sh) > 2) else "one"))
+                        flags.append(-1)
+                    elif ch == "k":
+                        args.append(c.const(7))
+                        flags.append(0)
+                    else:
+                        args.append(leaf(c, ("dr", 0, 1) if ch == "x" else ("un", 6, 7)))
+                        flags.append(0)
+                return args, flags
+            c = new(f"H:vdig:{kind}:{sh}")
+            args, flags = build(c)
+            call(c, 15, args, flags)
+            for how in ("const", "choice"):
+                for mid in (3, 4):
+                    if kind == "list" and (mid == 3) != (how == "const"):
+                        continue  # half of the list variants
+                    if len(sh) > 3:
+                        continue  # digits(self.u, ..) must stay below the exactness bound
+                    c = new(f"H:meth{mid}:{how}:{kind}:{sh}")
+                    b = boxes(c, how)
+                    args, flags = build(c, short=True)
+                    meth(c, mid, b, args, flags)
+        for sh, who in (("Sx", None), ("xS", None), ("xSy", None)):
+            c = new(f"H:vsum:{kind}:{sh}")
+            args, flags = [], []
+            for ch in sh:
+                if ch == "S":
+                    args.append(rtup(c, kind, "fix" if len(sh) == 2 else "one"))
+                    flags.append(-1)
+                else:
+                    args.append(leaf(c, ("dr", 0, 1) if ch == "x" else ("un", 6, 7)))
+                    flags.append(0)
+            call(c, 1, args, flags)
+        c = new(f"H:vsum:{kind}:S+kw")
+        call(c, 1, [rtup(c, kind, "fix"), leaf(c, ("dr", 0, 1))], [-1, 3])
+    # I: the container TYPE is part of the value: lists, tuples and namedtuples, as literals holding
+    #    random elements, as random choices, below type-sensitive operations
+    for kind in ("tuple", "list", "box"):
+        def lit_rand(c):
+            x = leaf(c, ("dr", 0, 1))
+            if kind == "box":
+                return c.add("box", a=[x, c.const(5)], ty="box")
+            return c.add(kind, a=[x, c.const(5)], ty="tup" if kind == "tuple" else "lst")
+        def choice_rand(c):  # a choice among literals with random elements
+            x = leaf(c, ("dr", 0, 1))
+            h = leaf(c, ("un", H, 2))
+            if kind == "box":
+                return c.add("uniform", a=[c.add("box", a=[x, c.const(5)], ty="box"), c.add("box", a=[c.const(1), h], ty="box")], ty="box")
+            ty = "tup" if kind == "tuple" else "lst"
+            return c.add("uniform", a=[c.add(kind, a=[c.const(0), x, h], ty=ty), c.add(kind, a=[c.const(1), x], ty=ty)], ty=ty)
+        for mkname, mk in (("lit", lit_rand), ("choice", choice_rand)):
+            c = new(f"I:{kind}:{mkname}:value")
+            T = mk(c)
+            if T != len(c.nodes):
+                raise AssertionError
+            c = new(f"I:{kind}:{mkname}:kind")
+            call(c, 17, [mk(c)])
+            c = new(f"I:{kind}:{mkname}:kind:kw")
+            call(c, 17, [mk(c)], [1])
+            c = new(f"I:{kind}:{mkname}:count")
+            call(c, 18, [mk(c), c.const(5)])
+            c = new(f"I:{kind}:{mkname}:len")
+            c.add("len", a=[mk(c)], ty="int")
+            if kind != "box":
+                ty = "tup" if kind == "tuple" else "lst"
+                c = new(f"I:{kind}:{mkname}:cat")
+                call(c, 16, [mk(c), tup(c, (7,), kind)])
+                c = new(f"I:{kind}:{mkname}:cat:kw")
+                call(c, 16, [tup(c, (7,), kind), mk(c)], [0, 2])
+                c = new(f"I:{kind}:{mkname}:cat:kindof")
+                call(c, 17, [call(c, 16, [mk(c), tup(c, (7,), kind)])])
+                if mkname == "choice":
+                    c = new(f"I:{kind}:{mkname}:add")
+                    binop(c, "add", mk(c), tup(c, (7,), kind))
+                    c = new(f"I:{kind}:{mkname}:slice:kindof")
+                    call(c, 17, [c.add("slice", a=[mk(c), c.const(1), 0, 0], ty=ty)])
+            else:
+                c = new(f"I:{kind}:{mkname}:attr")
+                c.add("attr", a=[mk(c)], c=[2])
+                c = new(f"I:{kind}:{mkname}:meth")
+                meth(c, 4, mk(c), [c.const(1), leaf(c, ("un", 6, 7))], [0, 0])
+                c = new(f"I:{kind}:{mkname}:plus:tuple")
+                call(c, 17, [call(c, 16, [mk(c), tup(c, (7,), "tuple")])])
+                if mkname == "choice":
+                    c = new(f"I:{kind}:{mkname}:slice:kindof")
+                    call(c, 17, [c.add("slice", a=[mk(c), 0, c.const(1), 0], ty="tup")])
+                    c = new(f"I:{kind}:{mkname}:eq:tuple")
+                    call(c, 6, [mk(c), c.add("tuple", a=[c.const(1), c.const(2)], ty="tup")])
+    # J: a lifted vector operator observed through a coordinate: (Vector(a, 2, 0) * b).x = a * b
+    for av, bv in ((("dr", 1, 2), 2), (3, ("dr", 1, 2)), (("dr", 1, 2), ("un", H, 3 * H)), (0, ("dr", 1, 2)),
+                   (("dr", 1, 2), 0), (("un", H, 2), 1), (("dr", -1, 1), H), (("ra", 0, 1), ("dr", 1, 2))):
+        c = new("J:vmulx")
+        a1 = leaf(c, av) if isinstance(av, tuple) else c.const(av)
+        b1 = leaf(c, bv) if isinstance(bv, tuple) else c.const(bv)
+        c.add("vmulx", a=[a1, b1])
+        c = new("J:vmulx:+1")
+        a1 = leaf(c, av) if isinstance(av, tuple) else c.const(av)
+        b1 = leaf(c, bv) if isinstance(bv, tuple) else c.const(bv)
+        binop(c, "add", c.add("vmulx", a=[a1, b1]), c.const(1))
     # G: leaves whose parameters are random
     for mk in range(12):
         c = new(f"G:{mk}")
@@ -915,8 +1104,10 @@ class RandomGen:
         self.rng = rng
         self.depth = depth
         self.case = Case("R")
-        self.pool = {"int": [], "num": [], "tup": [], "box": []}
+        self.pool = {"int": [], "num": [], "tup": [], "lst": [], "box": []}
         self.fd1 = False
+        # all sequences of one case are of one kind (tuple + list is a TypeError in Python)
+        self.skind, self.sty = ("list", "lst") if rng.random() < 0.3 else ("tuple", "tup")
 
     def k(self, ints=False):
         vals = [0, 1, 2, -1, 3] if ints else [0, 1, 2, -1, 3, H, 3 * H, -H]
@@ -945,7 +1136,7 @@ class RandomGen:
             return self.leaf(want)
         ops = ["bin"] * 6 + ["un"] * 2 + ["fn"] * 2 + ["cmp", "vite", "len", "param", "mux"]
         if want == "num":
-            ops += ["getitem", "attr", "meth", "unistar", "conv", "bin"]
+            ops += ["getitem", "attr", "meth", "unistar", "conv", "bin", "kind", "count", "methstar", "dig", "dig"]
         o = r.choice(ops)
         if o == "bin":
             opset = ["add", "sub", "mul", "floordiv", "mod"] if want == "int" else ["add", "sub", "mul", "truediv", "floordiv", "mod", "pow", "add", "sub", "mul"]
@@ -981,6 +1172,32 @@ class RandomGen:
                 if n == 2 and flags == [0, 0] and r.random() < 0.5:
                     flags = [0, 3]
             return self.remember(call(c, fid, args, flags))
+        if o == "dig":  # order-sensitive variadic callee, starred random sequences in any position
+            n = r.randint(2, 4)
+            args, flags = [], []
+            for _ in range(n):
+                if r.random() < 0.45:
+                    args.append(self.seq(min(d - 1, 1)))
+                    flags.append(-1)
+                else:
+                    args.append(self.num(min(d - 1, 1), "int") if r.random() < 0.7 else self.k(True))
+                    flags.append(0)
+            if -1 not in flags:
+                j = r.randrange(n)
+                args[j], flags[j] = self.seq(0), -1
+            return self.remember(call(c, 15, args, flags))
+        if o == "methstar":
+            b = self.box(min(d - 1, 1))
+            args = [self.seq(0), self.num(0, "int")]
+            flags = [-1, 0]
+            if r.random() < 0.5:
+                args, flags = args[::-1], flags[::-1]
+            return self.remember(meth(c, r.choice([3, 4]), b, args, flags))
+        if o == "kind":
+            x = r.choice([self.seq, self.seq, self.box])(d - 1)
+            return self.remember(call(c, 17, [x]))
+        if o == "count":
+            return self.remember(call(c, 18, [self.seq(d - 1), self.k()], r.choice([[0, 0], [0, 2]])))
         if o == "cmp":
             a1 = self.num(d - 1, want)
             a2 = self.k() if r.random() < 0.5 else self.num(d - 1, want)
@@ -1032,18 +1249,25 @@ class RandomGen:
 
     def seq(self, d):
         r, c = self.rng, self.case
-        if self.pool["tup"] and r.random() < 0.3:
-            return r.choice(self.pool["tup"])
-        o = r.choice(["choice", "choice", "literal", "slice", "concat", "divmod"]) if d > 0 else "choice"
+        K, TY = self.skind, self.sty
+        if self.pool[TY] and r.random() < 0.3:
+            return r.choice(self.pool[TY])
+        opts = ["choice", "choice", "literal", "slice", "concat", "cat", "litchoice"] + (["divmod"] if K == "tuple" else [])
+        o = r.choice(opts) if d > 0 else "choice"
         if o == "choice":
             n = r.randint(2, 3)
-            opts = [c.add("tuple", a=[self.k() for _ in range(r.randint(1, 3))], ty="tup") for _ in range(n)]
-            return self.remember(c.add("uniform", a=opts, ty="tup"))
+            opts = [c.add(K, a=[self.k() for _ in range(r.randint(1, 3))], ty=TY) for _ in range(n)]
+            return self.remember(c.add("uniform", a=opts, ty=TY))
+        if o == "litchoice":  # a choice among container literals that hold random elements
+            def one():
+                els = [self.num(min(d - 1, 1)) if r.random() < 0.5 else self.k() for _ in range(r.randint(1, 3))]
+                return c.add(K, a=els, ty=TY)
+            return self.remember(c.add("uniform", a=[one(), one()], ty=TY))
         if o == "literal":
             els = [self.num(d - 1) if r.random() < 0.6 else self.k() for _ in range(r.randint(1, 3))]
             if not any(c.is_random(x) for x in els):
                 els[0] = self.leaf("num")
-            return self.remember(c.add("tuple", a=els, ty="tup"))
+            return self.remember(c.add(K, a=els, ty=TY))
         if o == "slice":
             T = self.seq(d - 1)
             def b():
@@ -1054,10 +1278,12 @@ class RandomGen:
                     return c.const(r.choice([0, 1, -1, 2]))
                 return self.num(0, "int")
             st = 0 if r.random() < 0.6 else c.const(r.choice([1, 2, -1]))
-            return self.remember(c.add("slice", a=[T, b(), b(), st], ty="tup"))
-        if o == "concat":
+            return self.remember(c.add("slice", a=[T, b(), b(), st], ty=TY))
+        if o in ("concat", "cat"):
             T = self.seq(d - 1)
-            T2 = self.seq(d - 1) if r.random() < 0.5 else c.add("tuple", a=[self.k()], ty="tup")
+            T2 = self.seq(d - 1) if r.random() < 0.5 else c.add(K, a=[self.k()], ty=TY)
+            if o == "cat":
+                return self.remember(call(c, 16, [T, T2], r.choice([[0, 0], [0, 2]])))
             return self.remember(binop(c, "add", T, T2))
         x = self.num(d - 1)
         y = self.k() if r.random() < 0.6 else self.num(d - 1)
@@ -1101,7 +1327,24 @@ def random_cases(seed, count, depths=(2, 3, 3, 4)):
 # --------------------------------------------------------------------------- object cases (lazy evaluation)
 
 
-def object_cases(seed, count):
+DSHAPES = ["const", "plus", "times", "rminus", "diff", "pair", "choice", "vsum", "max", "drange",
+           "listchoice", "boxchoiceattr", "listcat", "listkind"]
+WSHAPES = ["const", "leaf", "leafplus", "rel", "relx2", "rrel", "relvsum", "relvsumkw", "relchoice", "reltuple",
+           "relmax", "relabs", "boxattr", "boxmethpos", "boxmethkw", "constmethkw",
+           "lzlistchoice", "lztuplediscrete", "lztuplechoice", "lzboxchoice", "lzboxattr", "lzboxattr1", "lzboxmeth",
+           "lzboxmethstar", "lzlistcat", "lzlistcatconst", "lzlistcatkw", "lzlistkind", "lzboxkind", "lzlistcount",
+           "lzlistadd", "lzlistitem", "lzlistslice", "lzliststar", "lzlistdirect", "lzboxdirect",
+           "lzvecmul", "lzvecmulrandvec", "lzvecmulrand"]
+
+
+def object_core():
+    """Deterministic object cases: every specifier-value shape and every default shape once, on
+    a fixed small class (pa: self.pb + 1, pb: 2, pc: 1, pd: <default shape over pb, pc>), with the
+    position constant / random."""
+    return object_cases(0, 0, core=True)
+
+
+def object_cases(seed, count, core=False):
     """One object of a class chain with `self.`-dependent defaults, some properties given by
     specifiers (constants, random leaves, vector-field-relative values).  Properties: 1 = px
     (x of the position), 2..5 = pa..pd."""
@@ -1131,6 +1374,17 @@ def object_cases(seed, count):
             return call(c, 2, [P(deps[0]), c.const(k)])
         if shape == "drange":
             return c.add("drange", a=[call(c, 12, [call(c, 3, [P(deps[0]), c.const(1)])]), c.const(2)], ty="int")
+        # container literals holding `self.` references, inside random expressions
+        if shape == "listchoice":
+            return c.add("uniform", a=[c.add("list", a=[c.const(0), P(deps[0])], ty="lst"),
+                                       c.add("list", a=[c.const(1), P(deps[-1]), c.const(k)], ty="lst")], ty="lst")
+        if shape == "boxchoiceattr":
+            return c.add("attr", a=[c.add("uniform", a=[c.add("box", a=[P(deps[0]), c.const(2)], ty="box"),
+                                                        c.add("box", a=[P(deps[-1]), c.const(3)], ty="box")], ty="box")], c=[2])
+        if shape == "listcat":
+            return call(c, 16, [c.add("list", a=[P(deps[0]), c.const(k)], ty="lst"), c.add("list", a=[c.const(7)], ty="lst")])
+        if shape == "listkind":
+            return call(c, 17, [c.add("uniform", a=[c.add("list", a=[P(deps[0])], ty="lst"), c.add("list", a=[c.const(k), P(deps[-1])], ty="lst")], ty="lst")])
         raise ValueError(shape)
 
     def with_expr(c, shape, k):
@@ -1176,11 +1430,91 @@ def object_cases(seed, count):
             return meth(c, 1, boxchoice(), [c.const(k), R(H)], [0, 2])
         if shape == "constmethkw":
             return meth(c, 2, c.add("box", a=[c.const(1), c.const(2)], ty="box"), [c.const(k), R(H)], [0, 2])
+        # non-tuple container literals with a LAZILY evaluated element, inside random expressions
+        # (an option of Uniform / Discrete, an argument of a lifted function or method, an operand
+        # of an operator): the sampled value must still be a list / the namedtuple
+        L = lambda *els: c.add("list", a=list(els), ty="lst")
+        B = lambda u, v: c.add("box", a=[u, v], ty="box")
+        if shape == "lzlistchoice":
+            return c.add("uniform", a=[L(c.const(0), R(H), topleaf(("dr", 0, 1))), L(c.const(1), R(H))], ty="lst")
+        if shape == "lztuplediscrete":
+            return c.add("discrete", a=[c.add("tuple", a=[R(H), c.const(k)], ty="tup"), c.add("tuple", a=[c.const(k)], ty="tup")], c=[1, 2], ty="tup")
+        if shape == "lztuplechoice":
+            return c.add("uniform", a=[c.add("tuple", a=[c.const(0), R(H)], ty="tup"), c.add("tuple", a=[c.const(1), R(1)], ty="tup")], ty="tup")
+        if shape == "lzboxchoice":
+            return c.add("uniform", a=[B(R(H), c.const(2)), B(R(H), c.const(3))], ty="box")
+        if shape == "lzboxattr":
+            return c.add("attr", a=[c.add("uniform", a=[B(R(H), c.const(2)), B(R(1), c.const(3))], ty="box")], c=[2])
+        if shape == "lzboxattr1":
+            return c.add("attr", a=[c.add("uniform", a=[B(R(H), c.const(2)), B(c.const(k), c.const(3))], ty="box")], c=[1])
+        if shape == "lzboxmeth":
+            return meth(c, 2, c.add("uniform", a=[B(R(H), c.const(2)), B(c.const(1), c.const(3))], ty="box"), [c.const(k)], [0])
+        if shape == "lzboxmethstar":
+            return meth(c, 4, c.add("uniform", a=[B(R(H), c.const(2)), B(c.const(1), c.const(3))], ty="box"),
+                        [c.const(k), topleaf(("dr", 0, 1))], [0, 0])
+        if shape == "lzlistcat":
+            return call(c, 16, [L(R(H), topleaf(("dr", 0, 1))), L(c.const(7))])
+        if shape == "lzlistcatconst":      # only the lazy element, no random one
+            return call(c, 16, [L(R(H), c.const(k)), L(c.const(7))])
+        if shape == "lzlistcatkw":
+            return call(c, 16, [L(c.const(7)), L(topleaf(("dr", 0, 1)), R(1))], [0, 2])
+        if shape == "lzlistkind":
+            return call(c, 17, [L(R(H), topleaf(("dr", 0, 1)))])
+        if shape == "lzboxkind":
+            return call(c, 17, [B(R(H), topleaf(("dr", 0, 1)))])
+        if shape == "lzlistcount":
+            return call(c, 18, [L(R(H), topleaf(("un", 1, H)), c.const(1)), c.const(1)])
+        if shape == "lzlistadd":           # operator operand
+            return binop(c, "add", c.add("uniform", a=[L(R(H), c.const(1)), L(c.const(2), R(H))], ty="lst"), L(c.const(7)))
+        if shape == "lzlistitem":
+            return c.add("getitem", a=[c.add("uniform", a=[L(c.const(0), R(H)), L(c.const(1), R(1))], ty="lst"), c.const(1)])
+        if shape == "lzlistslice":
+            return c.add("slice", a=[c.add("uniform", a=[L(c.const(0), R(H), c.const(2)), L(c.const(1), R(1))], ty="lst"), c.const(1), 0, 0], ty="lst")
+        if shape == "lzliststar":
+            return call(c, 15, [c.add("uniform", a=[L(c.const(1), R(H)), L(c.const(2))], ty="lst"), topleaf(("dr", 0, 1))], [-1, 0])
+        if shape == "lzvecmul":            # lifted vector operator with a lazy (non-random) scalar
+            return c.add("vmulx", a=[c.const(k), R(H)])
+        if shape == "lzvecmulrandvec":
+            return c.add("vmulx", a=[topleaf(("dr", 1, 2)), R(H)])
+        if shape == "lzvecmulrand":        # lazy AND random scalar
+            return c.add("vmulx", a=[c.const(k), binop(c, "add", topleaf(("un", H, 1)), R(H))])
+        if shape == "lzlistdirect":        # directly specified: goes through toLazyValue, the control
+            return L(R(H), topleaf(("dr", 0, 1)))
+        if shape == "lzboxdirect":
+            return B(R(H), c.const(2))
         raise ValueError(shape)
 
-    dshapes = ["const", "plus", "times", "rminus", "diff", "pair", "choice", "vsum", "max", "drange"]
-    wshapes = ["const", "leaf", "leafplus", "rel", "relx2", "rrel", "relvsum", "relvsumkw", "relchoice", "reltuple",
-               "relmax", "relabs", "boxattr", "boxmethpos", "boxmethkw", "constmethkw"]
+    dshapes = DSHAPES
+    wshapes = WSHAPES
+    if core:
+        def fixed(tag, pxk, wshape=None, dshape="const"):
+            c = Case(tag)
+            c.np = NP
+            base = {3: c.const(2), 4: c.const(1)}
+            base[2] = default_expr(c, "plus", [3], 1)
+            base[5] = default_expr(c, dshape, [3, 4], 2)
+            base[1] = c.const(0)
+            c.classes = [base]
+            c.defs = [[base.get(p, 0) for p in range(1, NP + 1)]]
+            withs = [0] * NP
+            if pxk == "leaf":
+                n = leaf(c, ("un", H, 1))
+                c.top.add(n)
+                withs[0] = n
+            else:
+                withs[0] = c.const(pxk)
+            if wshape:
+                withs[3] = with_expr(c, wshape, 2)   # pc
+            c.withs = withs
+            out.append(c)
+        for j, w in enumerate(wshapes):
+            fixed(f"OC:w:{w}", H if j % 2 else "leaf", wshape=w)
+            if w.startswith("lz"):
+                fixed(f"OC:w:{w}", "leaf" if j % 2 else 1, wshape=w)
+        for j, dsh in enumerate(dshapes):
+            fixed(f"OC:d:{dsh}", H, dshape=dsh)
+            fixed(f"OC:d:{dsh}:with", "leaf", wshape="leaf", dshape=dsh)
+        return out
     combos = list(itertools.product([0, 1], repeat=4))  # which of pa..pd are given by a specifier
     i = 0
     while len(out) < count:
